@@ -273,12 +273,17 @@ RECURSIVE SplitOnNlGt(_)
 SplitOnNlGt(s) == LET i == IndexOfNlGt(s, 1) IN
                   IF i = 0 THEN <<s>>
                   ELSE <<SubSeq(s, 1, i - 1)>> \o SplitOnNlGt(SubSeq(s, i + 2, Len(s)))
+(* a piece without line end is an unterminated label when it is the last piece  *)
+(* (skipped); any other such piece lost its line end to the separator: a label   *)
+(* with an empty sequence (commit 634db0443)                                      *)
 RECURSIVE BytesRecords(_)
 BytesRecords(pieces) ==
     IF pieces = <<>> THEN <<>>
     ELSE LET r == Head(pieces)
-             eol == IndexOf(r, NL, 1)
-         IN IF r = <<>> \/ eol = 0 THEN BytesRecords(Tail(pieces))
+             islast == Len(pieces) = 1
+             eol0 == IndexOf(r, NL, 1)
+             eol == IF eol0 = 0 THEN Len(r) + 1 ELSE eol0
+         IN IF r = <<>> \/ (eol0 = 0 /\ islast) THEN BytesRecords(Tail(pieces))
             ELSE <<Rec(Strip(SubSeq(r, 1, eol - 1)), DeleteWs(SubSeq(r, eol + 1, Len(r))))>>
                  \o BytesRecords(Tail(pieces))
 BytesParser(lines) ==
